@@ -137,6 +137,18 @@ CLAIMED = {
                   "empty containers, docstring vocabulary for documented exceptions",
         design="DESIGN.md §4 C12, appendix B.4",
     ),
+    "C17": dict(
+        level="other",
+        text="Decides one structural clause of the group-extent part of the property: every public method of the group-capable "
+             "shape collections that inserts a shape element (and FreeformBuilder.convert_to_shape, which inserts on their behalf) "
+             "is post-dominated on all paths by an extent recalculation; the collection hook delegates to the group element; "
+             "CT_GroupShape.recalculate_extents assigns x, y, cx, cy from the min/max child extents and recurses to the parent. "
+             "NOT decided (value-level arithmetic, a different technique family): connector end-point assignments across "
+             "flips, the extents arithmetic itself, freeform scaling and path extents.",
+        technique="static analysis: statement-level must-follow (post-dominance) of the recalculation call after insertion calls, "
+                  "structural shape of the recalculation hooks",
+        design="DESIGN.md §4 C17",
+    ),
     "C20": dict(
         level="other",
         text="Exhaustive finite-table comparison: every BaseXmlEnum member (alias groups by integer value; tokens distinct in "
